@@ -158,7 +158,7 @@ def gen_pipeline_combine_cases(ctx, n):
 
 
 ID_POOL = ["g1", "g2", "g10", "G1", "_g3", "__x4", "__no_feature", "__ambiguous", "007", "1e5", "12", "3.50", "a b", "gé1",
-           "γ2", "ENSG00000000003.15", "zz", "Z", "count", "TPM", "#x",
+           "γ2", "ENSG00000000003.15", "zz", "Z", "count", "TPM", "#x", "#feature_id", "#",
            # legal ids that pandas' default NA parsing used to read as missing keys (fix 896585b)
            "NA", "nan", "null", "None", "N/A", "NaN", "n/a", "<NA>", "NULL"]
 
@@ -170,7 +170,6 @@ def gen_synthetic_combine_cases(ctx, n):
     for i in range(n):
         names = rng.sample(["A", "B", "count", "TPM", "s_3", "E1", "x.y"], rng.randint(2, 4))
         pool = rng.sample(ID_POOL, rng.randint(0, len(ID_POOL)))
-        pool = [x for x in pool if not x.startswith("#")]          # a leading '#' is a header line for merge_files
         exps = []
         for nm in names:
             e = {"name": nm}
